@@ -43,11 +43,13 @@ pub struct Opts {
     pub small_ids: bool,
     /// many multi-parent terms and redundant shortcut edges
     pub dense: bool,
+    /// one long is_a chain (with a few side branches): deep recursion in the ancestor cache / propagation
+    pub deep: bool,
 }
 
 impl Default for Opts {
     fn default() -> Self {
-        Opts { min_terms: 1, max_terms: 14, roots_eighths: 4, flags: false, long_names: false, max_records: 5, small_ids: false, dense: false }
+        Opts { min_terms: 1, max_terms: 14, roots_eighths: 4, flags: false, long_names: false, max_records: 5, small_ids: false, dense: false, deep: false }
     }
 }
 
@@ -179,12 +181,14 @@ pub fn gen_facts(rng: &mut Rng, o: Opts) -> Facts {
             parents[i].insert(0); // modifier roots: children of HP:1
             continue;
         }
-        if rng.chance(1, 10) {
+        if !o.deep && rng.chance(1, 10) {
             continue; // disconnected term (another root)
         }
         let lo = if with_roots { 1 } else { 0 };
         let pick = |rng: &mut Rng| -> usize {
-            if rng.chance(1, 2) && i > lo + 3 {
+            if o.deep && i > lo && rng.chance(15, 16) {
+                i - 1
+            } else if rng.chance(1, 2) && i > lo + 3 {
                 rng.range((i - 3) as u64, (i - 1) as u64) as usize // recent node: builds depth
             } else {
                 rng.range(lo as u64, (i - 1) as u64) as usize
